@@ -33,6 +33,7 @@ type interpreter struct {
 	sizes              types.Sizes
 	run                *Run
 	initPkgs           map[string]bool
+	lazyTried          map[string]bool
 	depth              int
 	cur                *frame
 	regPool            map[*funcInfo][][]value
@@ -146,6 +147,30 @@ func infoOf(fn *ssa.Function) *funcInfo {
 func (i *interpreter) global(g *ssa.Global) *value {
 	if r, ok := i.globals[g]; ok {
 		return r
+	}
+	// A package outside the configured initialisation set is initialised the first time one of its
+	// package-level variables is used (its tables would silently read as zero otherwise).  The
+	// initialisers of its imports stay skipped until their own variables are used.
+	if g.Pkg != nil && !i.initPkgs[g.Pkg.Pkg.Path()] && !i.lazyTried[g.Pkg.Pkg.Path()] {
+		path := g.Pkg.Pkg.Path()
+		if i.lazyTried == nil {
+			i.lazyTried = map[string]bool{}
+		}
+		i.lazyTried[path] = true
+		skip := path == "os" || path == "runtime" || strings.HasPrefix(path, "internal/") || strings.HasPrefix(path, "runtime/") || path == "syscall" ||
+			path == "reflect" || path == "sync" || path == "sync/atomic" || path == "time" || path == "errors" || path == "flag" || path == "log" || path == "os/signal"
+		if f := g.Pkg.Func("init"); f != nil && f.Blocks != nil && !skip {
+			i.initPkgs[path] = true
+			saved, savedDepth := i.cur, i.depth
+			func() {
+				defer func() { i.cur, i.depth = saved, savedDepth }()
+				call(i, nil, 0, f, nil)
+			}()
+			i.run.lazyInit(path)
+			if r, ok := i.globals[g]; ok {
+				return r
+			}
+		}
 	}
 	cell := zero(mustDeref(g.Type()))
 	if g.Pkg != nil && g.Pkg.Pkg.Path() == "os" && g.Name() == "Args" {
